@@ -12,7 +12,7 @@
 (*   reparse  the same projection of parseString(sheet.cssText)            *)
 (* uri values: a URI, "" (no namespace), "*any*", "none" (no default).     *)
 (***************************************************************************)
-EXTENDS Naturals, Sequences, FiniteSets, TLC, SequencesExt, Json
+EXTENDS FiniteSetsExt, Naturals, Sequences, FiniteSets, TLC, SequencesExt, Json
 
 DOMExc == {"SyntaxErr", "HierarchyRequestErr", "NamespaceErr", "IndexSizeErr",
            "InvalidModificationErr", "NoModificationAllowedErr", "NotFoundErr",
@@ -84,5 +84,17 @@ NsParseFailing(r, o) ==
         ELSE IF ~usable /\ o.present THEN "UndeclaredPrefixRejected"
         ELSE IF usable /\ ~o.present THEN "RuleAfterMisplacedNamespaceRuleSurvives"
         ELSE IF o.present /\ o.uri # want THEN "DenotationStable"
+        ELSE "ok"
+
+\* ---- one URI declared several times in one text: "the last declaration of a URI wins, one prefix per URI" ------------------------
+\* row.order: the declarations in source order (a, b, c declare URI u under three prefixes, d declares URI v)
+LastOf(order, S) == order[Max({i \in 1..Len(order) : order[i] \in S})]
+NsDupesFailing(r, o) ==
+    LET keepU == LastOf(r.order, {"a", "b", "c"})
+        want == SelectSeq(r.order, LAMBDA x : x = keepU \/ x = "d")
+        wantRules == [i \in 1..Len(want) |-> <<want[i], IF want[i] = "d" THEN "v" ELSE "u">>]
+    IN  IF o.out # "ok" THEN "ParseCompletes"
+        ELSE IF o.nsrules # wantRules THEN "LastDeclarationOfUriWins"
+        ELSE IF ToSet(o.mapping) # ToSet(wantRules) THEN "MappingEqualsEffectiveRules"
         ELSE "ok"
 =============================================================================
